@@ -146,9 +146,11 @@ from .sim import Sim, Budget
 class Linear(Sim):
     """automaton state: local currently holding the value | ('C', what) consumed | 'R' returned"""
 
-    def __init__(self, body, start_local):
+    def __init__(self, body, start_local, carriers=None):
         super().__init__(body)
         self.start = start_local
+        self.carriers = carriers or (lambda cs: False)
+        self.carried = {}
         self.consumers = {}     # bb -> (term, arg index)
         self.stored = {}        # (bb, idx) -> stmt
         self.live_drops = {}    # bb -> path
@@ -181,6 +183,11 @@ class Linear(Sim):
         if isinstance(a, int):
             for i, arg in enumerate(t.get("args", [])):
                 if self._moves_holder(arg, a):
+                    from .facts import CallSite
+                    cs = CallSite(self.b, bb, t)
+                    if self.carriers(cs) and t.get("target") is not None and not t["dest"].get("p"):
+                        self.carried[bb] = cs
+                        return [(t["dest"]["l"], {})]
                     self.consumers[bb] = (t, i)
                     return [(("C", bb), {})]
         return None
@@ -196,13 +203,13 @@ class Linear(Sim):
         return self
 
 
-def check_linear(ctx, rule, body, local, allowed, what="entry", key_extra=""):
+def check_linear(ctx, rule, body, local, allowed, what="entry", key_extra="", carriers=None):
     """the value in `local` is, on every normal path, moved into exactly one call satisfying `allowed`
     (or handed back through the return place), and never dropped while live."""
     from .facts import CallSite
     key = fnkey(body) + "#" + what + key_extra
     try:
-        lin = Linear(body, local).go()
+        lin = Linear(body, local, carriers).go()
     except Budget as e:
         ctx.bad(rule, key + "-budget", loc(body), str(e))
         return None
